@@ -16,6 +16,11 @@ while read -r p props; do
   while [ $(jobs -r | wc -l) -ge ${MUTANT_PAR:-3} ]; do sleep 1; done
 done < $tmp/iso
 wait
-while read -r p props; do i=$((i+1)); scripts/mutant.sh $p $props > $tmp/r.$i 2>&1; done < $tmp/inplace
+# In-place entries modify /repo for a moment: only when asked for (nothing else may build meanwhile).
+if [ "${MUTANT_INPLACE:-0}" = 1 ]; then
+  while read -r p props; do i=$((i+1)); scripts/mutant.sh $p $props > $tmp/r.$i 2>&1; done < $tmp/inplace
+else
+  while read -r p props; do i=$((i+1)); echo "mutant $p: skipped (touches .yaml: run with MUTANT_INPLACE=1)" > $tmp/r.$i; done < $tmp/inplace
+fi
 { echo "# $(date -u +%FT%TZ) repo=$(git -C /repo log --format=%h -1) verif=$(git log --format=%h -1)"; cat $tmp/r.* | cut -c1-260; } > $out
 grep -c DETECTED $out; grep -c "MISSED\|BUILD-FAILED\|does not apply\|suite: FAIL\|suite: BUILD" $out
